@@ -165,9 +165,9 @@ Lemma start_message_cl lim o s ls r :
 Proof.
   unfold start_message. destruct (parse_request o (removelast ls)) as [m| |] eqn:E; try discriminate.
   destruct (get_header h_content_length (m_headers m)) as [v|] eqn:Ec.
-  - destruct (nonempty v && forallb dec_digit v) eqn:Ed; [|discriminate].
+  - destruct (nonempty v && forallb dec_digit v && (lenN v <=? int_max_str_digits)) eqn:Ed; [|discriminate].
     destruct (has_header h_sec_websocket_key1 (m_headers m)) eqn:Ek; [discriminate|].
-    intros _. exists m. apply andb_true_iff in Ed as [Hn Hd]. split; [reflexivity|]. rewrite Ec. split; [|exact Ek].
+    intros _. exists m. apply andb_true_iff in Ed as [Ed _]. apply andb_true_iff in Ed as [Hn Hd]. split; [reflexivity|]. rewrite Ec. split; [|exact Ek].
     split; [|exact Hd]. intros ->. discriminate Hn.
   - destruct (has_header h_sec_websocket_key1 (m_headers m)) eqn:Ek; [discriminate|].
     intros _. exists m. rewrite Ec. auto.
